@@ -1,6 +1,7 @@
 package cluster
 
 import (
+	"strconv"
 	"context"
 	"encoding/json"
 	"fmt"
@@ -80,6 +81,26 @@ type Sim struct {
 
 // SetAuto switches the free-running mode (stress runs recorded for trace validation)
 func (s *Sim) SetAuto(on bool) { s.auto.Store(on) }
+
+// TermBase shifts the real terms: specification term t (1-based, 0 = none) is real term t-1+TermBase.
+// With TermBase = 0 the first term is the real term 0, which protobuf omits from the encoding: records of
+// that term are shorter than all later ones. VERIF_TERMBASE selects another base.
+var TermBase = func() int64 { v, _ := strconv.ParseInt(os.Getenv("VERIF_TERMBASE"), 10, 64); return v }()
+
+// TermToReal / TermToSpec convert between the numberings
+func TermToReal(t int64) int64 {
+	if t <= 0 {
+		return -1
+	}
+	return t - 1 + TermBase
+}
+
+func TermToSpec(r int64) int64 {
+	if r < 0 {
+		return 0
+	}
+	return r - TermBase + 1
+}
 
 type blCall struct {
 	done   chan struct{}
@@ -695,20 +716,20 @@ func (s *Sim) Project(node string) (*PNode, error) {
 	if err != nil {
 		return nil, err
 	}
-	p := &PNode{Up: d.Ctrl != "down", Ctrl: d.Ctrl, Status: d.Status, Term: d.Term + 1, Head: -1, Commit: -1, LastApp: -1,
+	p := &PNode{Up: d.Ctrl != "down", Ctrl: d.Ctrl, Status: d.Status, Term: TermToSpec(d.Term), Head: -1, Commit: -1, LastApp: -1,
 		Wal: []PEntry{}, Applied: []string{}, Cursors: map[string]int64{}}
 	if !p.Up {
 		p.Ctrl = "none"
 		return p, nil
 	}
 	for _, e := range d.Wal {
-		p.Wal = append(p.Wal, PEntry{T: e.Term + 1, V: entryVal(e.Value)})
+		p.Wal = append(p.Wal, PEntry{T: TermToSpec(e.Term), V: entryVal(e.Value)})
 	}
 	if len(d.Wal) > 0 {
 		p.First = d.WalFirst + 1
 		p.Synced = d.WalLastSynced + 1
 	}
-	p.DbTerm = d.DbTerm + 1
+	p.DbTerm = TermToSpec(d.DbTerm)
 	p.Queued = d.SyncQueued
 	// the applied sequence is recovered from the version ids of the per-write records
 	type rec struct {
